@@ -104,6 +104,8 @@ type FEnc struct {
 	ghostErr error
 	cur *State
 	pendingLeaks []int
+	catParts     map[string][]string // concatenation term -> its flattened parts
+	catCache     map[string]string
 	rangeGhost   map[*ssa.Range]int // map iteration -> ghost cell holding the set of keys visited so far
 	mergeTarget  *State   // state being built at a join (for merge objects)
 	mergeSources []*State // predecessor exit states, parallel to the values being merged
